@@ -116,12 +116,12 @@ func (m *c09Model) abandon() {
 
 // real system under test
 type c09Sys struct {
-	conf  c09Conf
-	dir   string
-	gen   int
-	db    dbm.DB
-	cs    *storage.ChainState
-	st    *storage.State
+	conf c09Conf
+	dir  string
+	gen  int
+	db   dbm.DB
+	cs   *storage.ChainState
+	st   *storage.State
 }
 
 func (s *c09Sys) open() error {
